@@ -104,10 +104,13 @@ def obligations(tier: str) -> list[Ob]:
     q = tier == "quick"
     obs: list[Ob] = []
     M = "vlib.props.C09"
-    to = 420 if q else 3000
+    to = 420 if q else 1500
     for prefix in (["field_"] if q else ["field_", "f", "tag"]):
-        obs += spec_obs(M, "pyident_valid", f"pyident_valid[{prefix}]", {"prefix": prefix, "skip": False}, "pyident_valid", list(range(0, (4 if q else 5) + 1)), 4, to, must_upto=4)
-        obs += spec_obs(M, "classname_valid", f"classname_valid[{prefix}]", {"prefix": prefix}, "classname_valid", list(range(0, (2 if q else 3) + 1)), 2, to, must_upto=2)
+        # thorough: the default prefix goes one character further (n = 5 / 3, allowed to run out of time: must_upto);
+        # the other prefixes repeat the quick bounds
+        deep = (not q) and prefix == "field_"
+        obs += spec_obs(M, "pyident_valid", f"pyident_valid[{prefix}]", {"prefix": prefix, "skip": False}, "pyident_valid", list(range(0, (5 if deep else 4) + 1)), 4, to, must_upto=4)
+        obs += spec_obs(M, "classname_valid", f"classname_valid[{prefix}]", {"prefix": prefix}, "classname_valid", list(range(0, (3 if deep else 2) + 1)), 2, to, must_upto=2)
     # other field_prefix values: the degenerate empty prefix and a prefix that can glue onto a keyword remainder
     for prefix in ["", "f", "el"]:
         obs += spec_obs(M, "pyident_valid", f"pyident_valid_letters[{prefix!r}]", {"prefix": prefix, "skip": False, "domain": "letters"}, "pyident_valid_letters", list(range(1, (5 if q else 7) + 1)), 99, to)
